@@ -30,7 +30,8 @@ import vlib
 
 PKG = "pkg/dtls"
 COMMON = "common/vcommon_test.go"
-FILES = [COMMON, "pkg_dtls/stream_verif_test.go", "pkg_dtls/session_verif_test.go", "pkg_dtls/listener_verif_test.go"]
+FILES = [COMMON, "pkg_dtls/stream_verif_test.go", "pkg_dtls/session_verif_test.go", "pkg_dtls/listener_verif_test.go",
+         "pkg_dtls/setup_verif_test.go"]
 
 
 class Par:
@@ -354,6 +355,40 @@ def run(ctx):
               distinct_classes=classes["distinct"])
     ctx.log("B listener: %d scenarios (%d distinct classes), outcomes %s" % (sl["scenarios"], classes["distinct"], outcomes))
     ctx.sample({"stage": "B listener", "scenario": fmt_scen(scen[0]), "trace": [fmt_lev(e) for e in ltraces[0]]})
+
+    # ------------------------------------------------------------------ 4. set-up life cycle (spec/DtlsSetup): A + B (real time)
+    sD = ctx.spec_copy("DtlsSetup")
+    rD = ctx.tlc(sD, "DtlsSetup.tla", "MC_DtlsSetup.cfg", workers=2, timeout=300)
+    ctx.require_design_ok(rD, "DtlsSetup")
+    expect_inv(ctx.tlc(sD, "DtlsSetup.tla", "MC_DtlsSetup_wrappedonly.cfg", workers=2, timeout=300, count=False),
+               "SetupDeadlineEndsWithSetup", "set-up that disarms its deadline on the wrapped connection only")
+    gD = ctx.tlc(sD, "Gen_DtlsSetup.tla", "Gen_DtlsSetup.cfg", workers=1, timeout=300, count=False)
+    if gD["inv"] or gD["nbeh"] < 15:
+        raise vlib.InfraError("DtlsSetup row generation failed: %s" % gD["out"][-1500:])
+    outd = os.path.join(ctx.scratch, "setup_rows_out.ndjson")
+    res = ctx.go_test(PKG, FILES, "dtls", "^TestVerifSetupLifecycle$", env={"VERIF_IN": gD["beh_file"], "VERIF_OUT": outd}, timeout=900)
+    rowsd = ctx.read_results(outd)
+    sd = [x for x in rowsd if x.get("kind") == "summary"]
+    if not sd:
+        raise vlib.InfraError("set-up life-cycle driver did not finish:\n" + res["out"][-3000:])
+    nset = 0
+    for r in rowsd:
+        if r.get("kind") != "result":
+            continue
+        nset += 1
+        what = "%s set up under a %s context%s%s" % (r["role"], r["ctx"], ", deadline passed since" if r["expired"] else "",
+                                                   ", cancelled since" if r["cancelled"] else "")
+        if r["setup_err"]:
+            raise vlib.InfraError("set-up life cycle: %s could not be established in three attempts: %s" % (what, r["setup_err"]))
+        if r["raw_armed"] and not r["want_raw_armed"]:
+            prop_viol.append(("setup:SetupDeadlineEndsWithSetup:%s:%s" % (r["role"], r["ctx"]),
+                              "%s: a deadline is still armed on the transport the caller handed in after the set-up returned" % what, r))
+        if r["flow_err"] and r["want_ok"]:
+            prop_viol.append(("setup:EstablishedOutlivesContext:%s:%s%s%s" % (r["role"], r["ctx"], ":expired" if r["expired"] else "", ":cancelled" if r["cancelled"] else ""),
+                              "%s: application data no longer flows over the established connection (%s)" % (what, r["flow_err"]), r))
+    ctx.stage("B_setup", rows=nset, retried=sd[0]["retried"], states=rD["distinct"],
+              nonvacuity="instance that disarms the set-up deadline on the wrapped connection only violates SetupDeadlineEndsWithSetup")
+    ctx.log("B set-up life cycle: %d rows (role x context x what became of the context afterwards)" % nset)
 
     # ------------------------------------------------------------------ C: trace validation (both specs, in parallel)
     tv = Par()
